@@ -24,7 +24,7 @@ func init() { fw.Register(c08{}) }
 func (c08) ID() string    { return "C08" }
 func (c08) Level() string { return "exploration" }
 func (c08) Rule() string {
-	return "unit = (history, configuration, batch index): the same history of successful batches runs on four primaries - file + unlimited shared cache (with index caches released at random moments), file + tiny cache limit (evicts on every access), file + cache disabled, in-memory back end; after EVERY batch a battery of ~30 requests (_id reads of live/deleted ids, filter operators, text, flat, vamana with and without pre-filters, composites; select *) is answered by each primary and by a cold instance freshly opened on a byte copy of each file. Oracle: tie-aware answer equality warm vs cold on the same file for every request; equality across configurations and back ends (and with the model) for the deterministic indexes (filters, _id, text, flat without quantiser or with a fixed binary threshold). Non-trivial = the batch changed an index that has a cache (vector fields); distinct by (script hash, configuration, batch index)."
+	return "unit = (history, configuration, batch index): the same history of successful batches runs on five primaries - file + unlimited shared cache (with index caches released at random moments), file + tiny cache limit (evicts on every access), file + cache disabled, in-memory back end with unlimited cache, in-memory back end with the cache disabled (every record read back through the memory bucket); after EVERY batch a battery of ~30 requests (_id reads of live/deleted ids, filter operators, text, flat, vamana with and without pre-filters, composites; select *) is answered by each primary and by a cold instance freshly opened on a byte copy of each file. Oracle: tie-aware answer equality warm vs cold on the same file for every request; equality across configurations and back ends (and with the model) for the deterministic indexes (filters, _id, text, flat without quantiser or with a fixed binary threshold). Non-trivial = the batch changed an index that has a cache (vector fields); distinct by (script hash, configuration, batch index)."
 }
 func (c08) Assumptions() []string {
 	return []string{"graph answers are compared only between instances that share a file (random entry vector, concurrent insert order and k-means seeding legitimately differ across files)", "process death is out of scope here (C07); durability = close/reopen of a byte copy taken after the call returned", "fsync ordering / power loss is out of reach of runtime monitoring"}
@@ -437,6 +437,8 @@ func (c08) RunCase(c fw.Case, env *fw.Env) *fw.CaseResult {
 		mk("file+tiny", shardPath(env, "p2"), cache.NewManager(600)),
 		mk("file+disabled", shardPath(env, "p3"), cache.NewManager(0)),
 		mk("memory", "", cache.NewManager(-1)),
+		// the in-memory back end read cold: every record comes back through memBucket.Get
+		mk("memory+disabled", "", cache.NewManager(0)),
 	}
 	for _, p := range prims {
 		if p == nil {
@@ -612,7 +614,7 @@ func (c08) RunCase(c fw.Case, env *fw.Env) *fw.CaseResult {
 			}
 		}
 		if step == steps-1 {
-			res.Sample(map[string]any{"primaries": []string{"file+unlimited", "file+tiny", "file+disabled", "memory"}, "battery_size": len(battery), "live": len(m.Docs), "last_battery": batteryDescs(battery, 6)})
+			res.Sample(map[string]any{"primaries": []string{"file+unlimited", "file+tiny", "file+disabled", "memory", "memory+disabled"}, "battery_size": len(battery), "live": len(m.Docs), "last_battery": batteryDescs(battery, 6)})
 		}
 	}
 	return res
